@@ -230,6 +230,56 @@ def parseEmsg (l : Bytes) : Option EmsgBox := do
            duration := beNat d, id := beNat i, data := l }
   else none
 
+/-! ### the integer event options: text → `int`
+
+`EventBase.int_or_default_from_string(default)` and `positive_int_or_default_from_string(default)`
+(dashlive/server/events/base.py:52-71) parse every integer event option
+(`<event>__start`, `interval`, `count`, `duration`, `timescale`, `version`, `program_id`) with
+`DashOption.int_or_none_from_string` = `None` for `''` / `'none'`, else `int(value, 10)`.
+`pyInt` is CPython's `int(str, 10)` on ASCII text: surrounding white space is ignored, one
+optional sign, decimal digits with single underscores between digits; anything else (a decimal
+point, an exponent, a hex prefix) is a `ValueError`.  The value is exact for every magnitude. -/
+
+/-- white space `int()` strips (ASCII: space, \t \n \v \f \r and the separators 0x1c-0x1f) -/
+def isPyWs (c : Char) : Bool :=
+  c == ' ' || (9 ≤ c.toNat && c.toNat ≤ 13) || (28 ≤ c.toNat && c.toNat ≤ 31)
+
+def digitVal (c : Char) : Option Nat :=
+  if '0' ≤ c ∧ c ≤ '9' then some (c.toNat - 48) else none
+
+/-- decimal digits with single underscores *between* digits; `prev` = the previous character
+was a digit -/
+def readDigits : List Char → Nat → Bool → Option Nat
+  | [], acc, prev => if prev then some acc else none
+  | c :: cs, acc, prev =>
+    if c = '_' then (if prev then readDigits cs acc false else none)
+    else match digitVal c with
+      | some d => readDigits cs (acc * 10 + d) true
+      | none => none
+
+/-- `int(text, 10)`; `none` = `ValueError` -/
+def pyInt (text : List Char) : Option Int :=
+  let t := ((text.dropWhile isPyWs).reverse.dropWhile isPyWs).reverse
+  match t with
+  | [] => none
+  | c :: ds =>
+    if c = '-' then (readDigits ds 0 false).map fun n => -(n : Int)
+    else if c = '+' then (readDigits ds 0 false).map fun n => (n : Int)
+    else (readDigits (c :: ds) 0 false).map fun n => (n : Int)
+
+/-- `int_or_default_from_string(dflt)` (`positive = false`) and
+`positive_int_or_default_from_string(dflt)` (`positive = true`, used for `interval`) -/
+def parseEventInt (dflt : Int) (positive : Bool) (text : List Char) : Res Int :=
+  if text = [] ∨ text = ['n', 'o', 'n', 'e'] then .ok dflt
+  else match pyInt text with
+    | none => .valueError
+    | some v => if positive ∧ v < 1 then .valueError else .ok v
+
+/-- the canonical decimal text of an integer (Python `str(z)`): `Nat.toDigits 10`, with a
+leading `-` for a negative number -/
+def decimalOf (z : Int) : List Char :=
+  if z < 0 then '-' :: Nat.toDigits 10 z.natAbs else Nat.toDigits 10 z.toNat
+
 /-! ### Specification: the schedule
 
 Event `k ≥ 0` of a schedule has presentation time `start + k·interval`; it exists
